@@ -169,7 +169,8 @@ main (int argc, char **argv)
         printf (" / ");
         for (int i = 0; i < 64; i++)
           printf ("%d", blk[i]);
-        memset (&d, 0, sizeof d);
+        memset (&d, t % 2 ? 0xb7 : 0, sizeof d);      /* old callers only cleared 'initialized' */
+        d.initialized = 0;
         skr (key, &d);
         enr (blk2, 0, &d);
         printf (" / _r ");
